@@ -79,8 +79,9 @@ def spec (req : Json) : Except String Json := do
           let a ← impl.getObjValAs? (Array Json) "diags"
           a.toList.mapM decodeImplDiag
         else pure [])
-      let missing := v.filter (fun d => !idiags.any (fun a => sameSite a d))
-      let extra := idiags.filter (fun a => !v.any (fun d => sameSite a d))
+      -- multisets: two rules broken at one place are two diagnostics (`finishFile_perm_violations`)
+      let missing := v.filter (fun d => (idiags.filter (fun a => sameSite a d)).length < (v.filter (fun d' => d'.cls == d.cls && d'.file == d.file && d'.pos == d.pos)).length)
+      let extra := idiags.filter (fun a => (v.filter (fun d => sameSite a d)).length < (idiags.filter (fun a' => a'.cls == a.cls && a'.file == a.file && a'.pos == a.pos)).length)
       let ok := (kind == "ok" || kind == "diags") && missing.isEmpty && extra.isEmpty && (kind == "ok") == v.isEmpty
       pure (Json.mkObj [("holds", ok),
         ("missing", Json.arr (missing.map diagJ).toArray),
